@@ -318,6 +318,38 @@ def random_cmds(rng, W, H, cols, depth=0, maxlen=12):
     return out
 
 
+def reach_bound(cmds, start, smax=255):
+    """Generator knowledge only (never used in a verdict): an upper bound on how far from the origin the pen can get while the
+    string runs, whatever scale (<= 255) is in force at its start. Strings that could leave the 16-bit coordinate range are not
+    generated: there the reference LINE statements (and DRAW itself) raise Overflow, which is outside the fragment."""
+    far = [max(abs(start[0]), abs(start[1]))]
+    worst = [far[0]]
+    sc = [smax]
+
+    def walk(cs):
+        for c in cs:
+            if c['c'] == 'X':
+                if not walk(c['sub']):
+                    return False
+            elif c['c'] == 'S':
+                if not 1 <= c['n'] <= 255:
+                    return False            # refused: the string stops here
+                sc[0] = c['n']
+            elif c['c'] == 'M' and not c['rel']:
+                worst[0] = max(worst[0], abs(c['x']), abs(c['y']))
+                if not c.get('nn'):
+                    far[0] = max(abs(c['x']), abs(c['y']))
+            elif c['c'] == 'M' or c['c'] in MOVES:
+                d = max(abs(c['x']), abs(c['y'])) if c['c'] == 'M' else abs(c['n'])
+                reach = far[0] + (d * sc[0]) // 4 + 1
+                worst[0] = max(worst[0], reach)
+                if not c.get('nn'):
+                    far[0] = reach
+        return True
+    walk(cmds)
+    return worst[0]
+
+
 def run(ctx):
     ctx.cov['rule'] = ('one event per DRAW statement executed on a real Session, judged by TLC with Draw.tla (pen position by POINT(0)/POINT(1) and PSET STEP(0,0), '
                        'pixels against the LINE rendering of the model segments); distinct by (mode, start, command records); non-trivial = strings with at least one move')
@@ -364,8 +396,13 @@ def run(ctx):
             T.add((cell[0] + 32, cell[1] + 32), lead + cmds, cell, plain=(i % 3 == 0), label='enumerated')
         # random longer strings, whole screen
         for k in range(per_mode_random):
-            cmds = [{'c': 'C', 'n': rng.choice(T.cols)}] + random_cmds(rng, W, H, T.cols)
             start = (rng.randint(0, W - 1), rng.randint(0, H - 1))
+            for _ in range(50):
+                cmds = [{'c': 'C', 'n': rng.choice(T.cols)}] + random_cmds(rng, W, H, T.cols)
+                if reach_bound(cmds, start) < 30000:
+                    break
+            else:
+                continue
             T.add(start, cmds, None, label='random')
         # a refused scale between two DRAW statements: the scale set before it stays in force (round-2 seeded change C33b)
         mv = lambda c, n: {'c': c, 'n': n, 'b': False, 'nn': False}
